@@ -445,6 +445,11 @@ func (s *CoAServer) sendResponse(code, identifier uint8, requestAuth []byte, err
 
 	// Add Reply-Message if present
 	if message != "" {
+		// A RADIUS attribute carries at most 253 octets of value (RFC 2865 5):
+		// a longer text would wrap the one-octet length field
+		if len(message) > 253 {
+			message = message[:253]
+		}
 		msgAttr := make([]byte, 2+len(message))
 		msgAttr[0] = 18 // Reply-Message attribute type
 		msgAttr[1] = uint8(2 + len(message))
